@@ -280,3 +280,27 @@ def parallel_map(fn, items, procs=16, chunk=500):
     ctx = mp.get_context("fork")
     with ctx.Pool(procs) as pool:
         return pool.map(fn, items, chunksize=chunk)
+
+
+def run_cases(chk, label, module, cfg, scratch, run_case, env=None, key=None, sample_n=2, workers=8, what=None,
+              parallel=False, timeout=3600):
+    """One-shot pattern: TLC enumerates cases (one per initial state) with the specification's
+    predictions, the adapter's run_case(o) returns a list of (what, detail, kind) disagreements."""
+    from . import tlc
+
+    out, r = generate(chk, label, module, cfg, scratch, workers=workers, env=env, timeout=timeout)
+    cases = tlc.read_emitted(out)
+    if not cases:
+        raise tlc.MachineryError("TLC emitted no case (%s/%s)" % (module, cfg))
+    results = parallel_map(run_case, cases, chunk=50) if parallel else [run_case(o) for o in cases]
+    for i, (o, bads) in enumerate(zip(cases, results)):
+        c = o.get("case", o)
+        chk.case((label, json.dumps(c, sort_keys=True)) if key is None else (label, key(o)))
+        chk.replayed += 1
+        chk.count("cases_%s_%s" % (label, c.get("kind", "")) if isinstance(c, dict) else "cases_" + label)
+        if i < sample_n:
+            chk.sample({"label": label, "case": c})
+        for w, detail, kind in bads:
+            chk.mismatch({"label": label, "module": module, "cfg": cfg, "emitted": o}, {"what": w, **(detail or {})},
+                         kind=kind, what=what or w)
+    return cases
